@@ -288,7 +288,7 @@ var props = map[string]*propDef{
 			"a silent server ends in a read-timeout and then EOF (finite read timeout)",
 		}, baseAssumptions...),
 		Harnesses: []harnessDef{
-			{Name: "ch.VerifC04Faults", Repeat: 200, Cfg: noReturn},
+			{Name: "ch.VerifC04Faults", Repeat: 200, Cfg: noReturn, Quick: map[string]int{"revisions": 1}, Thorough: map[string]int{"revisions": 4}},
 		},
 	},
 	"C10": {
